@@ -19,7 +19,7 @@ QXV = os.path.join(HARNESS, "target", "debug", "qxv")
 QUIZX_BIN = os.path.join(HARNESS, "target", "debug", "quizx")
 MC = os.path.join(VERIF, "mc")
 SPEC = os.path.join(VERIF, "spec")
-WORK = os.path.join(VERIF, "work")
+WORK = os.path.join(VERIF, "work") if not os.environ.get("VERIF_HARNESS_DIR") else os.path.join(VERIF, "work", "mut_" + os.path.basename(os.environ["VERIF_HARNESS_DIR"]))
 NCPU = os.cpu_count() or 4
 
 
@@ -201,10 +201,13 @@ def write_violation(prop, n, payload):
 
 
 def write_evidence(prop, tier, seed, level, coverage, assumptions, wall, violations):
-    os.makedirs(os.path.join(VERIF, "evidence"), exist_ok=True)
+    evdir = os.path.join(VERIF, "evidence")
+    if os.environ.get("VERIF_HARNESS_DIR"):
+        evdir = os.path.join(WORK, "evidence_mutant")      # mutation experiments never overwrite the real evidence
+    os.makedirs(evdir, exist_ok=True)
     ev = {"property_id": prop, "tier": tier, "seed": seed, "level": level, "coverage": coverage,
           "assumptions": assumptions, "wall_s": round(wall, 1), "violations": violations}
-    with open(os.path.join(VERIF, "evidence", prop + ".json"), "w") as f:
+    with open(os.path.join(evdir, prop + ".json"), "w") as f:
         json.dump(ev, f, indent=1)
 
 
